@@ -965,6 +965,11 @@ fn linearizable(case: &Case, ex: &Exec) -> bool {
 /// the final lists: the only departure from atomicity is `concat` reading its
 /// operands in two critical sections.
 fn explained_by_two_section_concat(case: &Case, ex: &Exec) -> bool {
+    // (only a history with a concat can be explained by it; an operation that
+    // passed no schedule point at all has no step to be replayed at)
+    if !case.progs.iter().flatten().any(|o| matches!(o, Op::Concat(..) | Op::Plus(..))) {
+        return false;
+    }
     let n = case.progs.len();
     let mut lists = case.lists.clone();
     let mut snap: Vec<Option<Vec<u64>>> = vec![None; n];
